@@ -217,6 +217,26 @@ func c18GoValue(c *vkit.Ctx, r *rand.Rand, i int) {
 		if k%5 == 0 {
 			snaps.VerifResetProcessState()
 		}
+		if k%6 == 4 {
+			// in between, another Config with other options (among them the JSON format option,
+			// which has no say in YAML) stores Go values and documents in another file: "the same
+			// text every time" does not depend on what else the process snapshots
+			oc := snaps.WithConfig(snaps.Dir(root), snaps.Filename("other"), snaps.Ext([]string{"", ".yaml"}[r.IntN(2)]),
+				snaps.JSON(snaps.JSONConfig{Indent: []string{"", " ", "    ", "\t", "        "}[r.IntN(5)], Width: []int{0, 20, 200}[r.IntN(3)], SortKeys: r.IntN(2) == 0}))
+			ot := vkit.NewT(fmt.Sprintf("TestO%d", k))
+			nested := map[string]any{"svc": map[string]any{"ports": []any{1, map[string]any{"name": "x"}}}, "k": k}
+			switch r.IntN(4) {
+			case 0, 1:
+				oc.MatchYAML(ot, nested)
+			case 2:
+				oc.MatchJSON(ot, nested)
+			default:
+				oc.MatchYAML(ot, "a:\n    b: 1\n")
+			}
+			ot.Take()
+			ot.Finish()
+			c.Count("go_value_recordings_after_another_config_with_other_options", 1)
+		}
 		name := fmt.Sprintf("TestG%d", k)
 		t := vkit.NewT(name)
 		snaps.WithConfig(snaps.Dir(root), snaps.Filename("g")).MatchYAML(t, v)
